@@ -34,6 +34,7 @@ func TestMain(m *testing.M) {
 	run.Assume("transmissions are serialised by the hook (a mutex from X:before-send to X:after-send) so that the per-transmission outage script is exact; the manager's goroutines otherwise run as they are")
 	run.Assume("phase-scripted patterns: one session, so every queue transmission before a Start got through is the Start, and the Stop is only transmitted afterwards (late StopSession positions are combined with B <= 2 so that no interim update can be queued beside the Start); the per-record refusal bounds (Start <= 1+B, Stop <= C, interim <= D+C) are checked on the harness's journal and a pattern outside MaxRetries-2 queue refusals per record is reported inconclusive, not judged")
 	run.Assume("graceful stop: a RADIUS server that hangs while Stop() runs is played in virtual time as an exchange that fails when its sender would have given up (client time-out, the drain's ShutdownTimeout, or the manager's own context being cancelled after the drain), the sends of the drain side by side; the thorough tier repeats the scenarios in real time against a port that never answers and judges them only when every exchange meant to be answered took less than half the client's time-out")
+	run.Assume("scripts c15/c16: the server answers 20 ms late (real time) and Stop() is held for 10 ms before it cancels the workers, so that the cancellation meets a queue transmission the server has already accepted; on a machine too slow for that the transmission is simply not made and the scripts show nothing")
 	run.Assume("mass session end: 'eventually' is the limiter's longest possible wait (sessions / rate) several times over, in virtual time; the sessions' Starts are sent through the same limiter (PPPoE: by the harness)")
 	run.Assume("DHCP accounting: the handlers send Start/Stop from goroutines; the harness waits (synctest.Wait) until they have been answered before the next step, so the order of records of different steps is the order of the steps; stopAllAccounting is terminal (in production the server is closed before it runs)")
 	run.Floor("kill_cases_judged", 100)
@@ -47,6 +48,7 @@ func TestMain(m *testing.M) {
 	run.Floor("graceful_stop [drain-on,server-hanging,timeout-shorter-than-drain]", 4)
 	run.Floor("graceful_stop_transmissions_unanswered_server_hanging", 10)
 	run.Floor("points_enumerated_graceful_stop_scripts", 60)
+	run.Floor("graceful_stop_with_queue_transmission_while_Stop()_ran_server_answering_late", 2)
 	run.Floor(floorMassSpread, 60)
 	run.Floor(floorMassBeyond, 600)
 	run.Floor(floorMassPPPoE, 300)
@@ -145,7 +147,7 @@ func curated() []*Script {
 		// queued, the processor sends it at once, the server (answering 20 ms late) accepts it, and
 		// Stop() cancels the workers in the meantime
 		{NoKills: true, Incs: []Inc{{Steps: []Step{st("start", 0), st("start", 1), st("stop", 0)}, Down: []int{2, 3, 4}, End: g, LateMs: 20}}},
-		{NoKills: true, Incs: []Inc{{Steps: []Step{st("start", 0), st("start", 1), st("start", 2)}, Down: []int{3, 4}, End: g, LateMs: 20}}},
+		{NoKills: true, Incs: []Inc{{Steps: []Step{st("start", 0)}, Down: []int{1}, End: g, LateMs: 20}}},
 	}
 }
 
